@@ -1389,8 +1389,7 @@ def run_property(pid, prop, tier, seed, scratch, replay=None):
                       files=c.get("files", {}), exp=None)]
     else:
         cases = load_corpus(prop.get("corpus", ["common"])) + gen_cases(pid, prop, n, seed)
-    results = engine.run(cases, scratch)
-    out = dict(evaluations=len(results), failures=[], breaks=[], samples=[], notes=[])
+    out = dict(evaluations=len(cases), failures=[], breaks=[], samples=[], notes=[])
     seen = set()
     nontrivial = 0
     dist = collections.Counter()
@@ -1398,7 +1397,12 @@ def run_property(pid, prop, tier, seed, scratch, replay=None):
     other_aspect_diffs = collections.Counter()
     fullfile_equal = 0
     kf_filter = prop.get("kf_filter")
-    for r in results:
+    first_case = cases[0] if cases else None
+    first_verdict = None
+    BATCH = 1500      # cases per engine run: keeps memory bounded (a result holds the whole dump)
+    for r in (r_ for b0 in range(0, len(cases), BATCH) for r_ in engine.run(cases[b0:b0 + BATCH], scratch)):
+        if first_verdict is None:
+            first_verdict = r.hv[0]
         dist["impl_" + r.hv[0]] += 1
         if r.case.get("exp") and r.case["exp"].get("miss"):
             dist["near_miss:" + r.case["exp"]["miss"]] += 1
@@ -1444,7 +1448,6 @@ def run_property(pid, prop, tier, seed, scratch, replay=None):
     out["distribution"] = dict(dist)
     out["distribution"]["diffs_in_other_aspects"] = dict(other_aspect_diffs)
     out["fullfile_equal"] = fullfile_equal
-    if not out["samples"] and results:
-        r = results[0]
-        out["samples"].append(dict(id=r.case["id"], ptr=r.case.get("ptr"), files=r.case["files"], impl_verdict=r.hv[0]))
+    if not out["samples"] and first_case is not None:
+        out["samples"].append(dict(id=first_case["id"], ptr=first_case.get("ptr"), files=first_case["files"], impl_verdict=first_verdict))
     return out
